@@ -104,7 +104,7 @@ func init() {
 		Entries: []EntrySpec{
 			{Pkg: "biscuit", Func: "VerifC13Reset",
 				Quick:    sc2(sc("authFacts", 1), "az1Facts", 1, "az1Rule", 0, "az1Check", 0, "az2Facts", 0, "az2Rule", 0, "az2Check", 1),
-				Thorough: sc2(sc("authFacts", 1), "az1Facts", 1, "az1Rule", 1, "az1Check", 0, "az2Facts", 1, "az2Rule", 0, "az2Check", 1),
+				Thorough: sc2(sc("authFacts", 1), "az1Facts", 1, "az1Rule", 1, "az1Check", 0, "az2Facts", 1, "az2Rule", 1, "az2Check", 1),
 				Covers:   []string{"compared"}},
 			// three rounds, two Resets; round 2 brings a fact that round 3 must not see
 			{Pkg: "biscuit", Func: "VerifC13Reset",
@@ -128,7 +128,7 @@ func init() {
 			c.Harness = hb()
 			c.Entries = append(c.Entries, EntrySpec{Pkg: "biscuit", Func: "VerifC09Equivalent",
 				Quick:    sc("authFacts", 1, "authRule", 1, "authCheck", 1, "blocks", 1, "blkFacts", 1, "blkCheck", 1),
-				Thorough: sc("authFacts", 1, "authRule", 1, "authCheck", 1, "blocks", 1, "blkFacts", 1, "blkCheck", 2, "policies", 1),
+				Thorough: sc("authFacts", 1, "authRule", 1, "authCheck", 1, "blocks", 1, "blkFacts", 1, "blkCheck", 2, "azFacts", 1, "policies", 1),
 				Covers:   []string{"compared"}})
 			// the issuer built the token on top of a symbol table of its own
 			c.Entries = append(c.Entries, EntrySpec{Pkg: "biscuit", Func: "VerifC09Equivalent",
